@@ -15,6 +15,7 @@ Numbers are compared numerically (1e-6 on coordinates, 1e-5 on occupation codes 
 elsewhere), words case-insensitively. Trailing parameters the printer ADDS are accepted iff they are the SHELXL
 defaults of those positions (the line denotes the same instruction); anything the input states that is dropped,
 defaulted or replaced is a failure with signature  C01|<line class>|<what was lost>.
+(Symmetrically, trailing parameters of the input that ARE the defaults may be left out by the printer.)
 Files the parser does not get through (property C02's business) are skipped and counted.
 """
 import difflib
@@ -155,16 +156,16 @@ def toks_diff(kw, tin, tout):
                 lost = tin[k].upper()
                 return f'{lost}-lost' if lost == 'NOHKL' else f'parameter-{k + 1}-replaced'
             return f'parameter-{k + 1}-changed'
-    if len(tout) < len(tin):
-        lost = tin[len(tout)].upper()
-        return f'{lost}-lost' if lost == 'NOHKL' else f'parameter-{len(tout) + 1}-lost'
-    if len(tout) > len(tin):
-        d = TRAILING_DEFAULTS.get(kw)
-        for k in range(len(tin), len(tout)):
-            dv = d[k] if d and k < len(d) else None
-            xo = num(tout[k])
-            if dv is None or xo is None or abs(xo - dv) > 1e-9:
-                return f'parameter-{k + 1}-added'
+    # trailing parameters present on one side only must be the SHELXL defaults of those positions
+    # (SameInstr of ShelxModel/C01.lean: equal after filling in the defaults)
+    d = TRAILING_DEFAULTS.get(kw)
+    longer, what = (tin, 'lost') if len(tin) > len(tout) else (tout, 'added')
+    for k in range(n, len(longer)):
+        dv = d[k] if d and k < len(d) else None
+        x = num(longer[k])
+        if dv is None or x is None or abs(x - dv) > 1e-9:
+            lost = longer[k].upper()
+            return f'{lost}-lost' if (lost == 'NOHKL' and what == 'lost') else f'parameter-{k + 1}-{what}'
     return None
 
 
